@@ -16,6 +16,7 @@ import (
 )
 
 type Clause struct {
+	Assumed  bool // postcondition assumed at call sites, not checked against the body
 	AtReturn int // >= 0: applies only to the n-th return (source order); -1: every return
 	Label string
 	Props []string
@@ -98,6 +99,13 @@ type GhostDecl struct {
 	Local  bool // function-private ghost (e.g. a counter): never havocked by calls without a contract
 }
 
+type AtomicRely struct {
+	Field   string
+	PkgPath string
+	From    int
+	Where   string
+}
+
 type FactDecl struct {
 	Re     *ReLemma // regular-expression lemma (decided on the pattern read from the program)
 	Kind   string // "axiom" or "lemma"
@@ -119,12 +127,13 @@ type Specs struct {
 	FuncFields map[string]string // "pkgpath.Type.Field" -> callback contract name
 	Files      []*SpecFile
 	Scan       []string // trusted/assume/extern scan
+	Atomics    map[string]*AtomicRely // "pkgpath.Type.field"
 }
 
 var clauseKeywords = map[string]bool{
-	"package": true, "import": true, "pure": true, "ghost": true, "axiom": true, "lemma": true, "relemma": true,
+	"package": true, "import": true, "pure": true, "ghost": true, "axiom": true, "lemma": true, "relemma": true, "atomic": true,
 	"func": true, "iface": true, "extern": true, "callback": true, "funcfield": true,
-	"requires": true, "ensures": true, "modifies": true, "loop": true, "call": true, "let": true,
+	"requires": true, "ensures": true, "assumes": true, "modifies": true, "loop": true, "call": true, "let": true,
 	"trusted": true, "inline": true, "opt": true, "serves": true, "exit": true, "entry": true, "callee": true,
 }
 
@@ -252,6 +261,21 @@ func (sp *Specs) loadFile(path, pkgPath string) error {
 				}
 				sp.Ghosts[name] = &GhostDecl{Name: name, Params: params, Result: result, File: sf, Local: local}
 			}
+		case "atomic":
+			// `atomic T.f changes-only-from <n>`: rely/guarantee for a field accessed with sync/atomic
+			f := strings.Fields(rest)
+			if len(f) != 3 || f[1] != "changes-only-from" {
+				return fail(fmt.Errorf("atomic: want `T.f changes-only-from <n>`"))
+			}
+			n, err := strconv.Atoi(f[2])
+			if err != nil {
+				return fail(err)
+			}
+			if sp.Atomics == nil {
+				sp.Atomics = map[string]*AtomicRely{}
+			}
+			sp.Atomics[pkgPath+"."+f[0]] = &AtomicRely{Field: f[0], PkgPath: pkgPath, From: n, Where: where}
+			sp.Scan = append(sp.Scan, fmt.Sprintf("rely: other goroutines change %s only when it holds %d (guaranteed by every atomic write to it in the module) (%s)", f[0], n, where))
 		case "relemma":
 			lab, props, r2 := parseLabel(rest)
 			rl, src, err := parseReLemma(r2)
@@ -314,11 +338,23 @@ func (sp *Specs) loadFile(path, pkgPath string) error {
 				atRet = n
 				kw = "ensures"
 			}
+			assumedPost := false
+			if kw == "assumes" {
+				// a postcondition the callers may use but the body is not checked against: an
+				// assumption about what the function's callees (other libraries, the registry, the
+				// hash function) make true; listed with the other assumptions
+				assumedPost = true
+				kw = "ensures"
+			}
 			switch kw {
 			case "requires", "ensures":
 				c, err := mkClause(rest)
 				if err != nil {
 					return err
+				}
+				c.Assumed = assumedPost
+				if assumedPost {
+					sp.Scan = append(sp.Scan, fmt.Sprintf("assumed postcondition of %s [%s]: %s (%s)", cur.Name, c.Label, c.Src, where))
 				}
 				c.AtReturn = atRet
 				if kw == "requires" {
